@@ -543,7 +543,8 @@ Definition wf_item (i : item) : Prop :=
   | IRaw name attrs ws content ename ews =>
       (exists c nm, name = c :: nm /\ is_letter c = true) /\ Forall namechar name /\
       (exists h, to_hash (map lower name) = Ok h /\ to_hash (map lower ename) = Ok h /\ is_raw_hash h = true /\
-                 is_xml_hash h = false /\ h <> html_hash_Plaintext /\ h <> html_hash_Script) /\   (* style title textarea xmp iframe *)
+                 is_xml_hash h = false /\ h <> html_hash_Plaintext /\
+                 (h <> html_hash_Script \/ Forall (fun c => c <> 60) content)) /\   (* style title textarea xmp iframe; script without '<' *)
       all_ws ws /\ wf_attrs attrs (ws ++ closer false) /\
       content <> [] /\ no_lt_slash content /\
       ename <> [] /\ Forall (fun c => is_letter c = true) ename /\ Forall (fun c => is_ws4 c = true) ews
@@ -756,8 +757,18 @@ Proof.
     { destruct ews as [|w ews']; [exists 62, rest; split; reflexivity|]. exists w, (ews' ++ 62 :: rest). split; [reflexivity|].
       inversion Hews as [|? ? Hw _]; subst. unfold is_ws4 in Hw. unfold is_letter.
       repeat (apply orb_true_iff in Hw; destruct Hw as [Hw|Hw]); apply Z.eqb_eq in Hw; subst w; reflexivity. }
-    destruct (lexes_rawtext d l1 _ content ename (ews ++ 62 :: rest) h Hat2 Hi1 Hr1 Hrh Hxh Hnp Hns Hcne Hnls Helet Heh Herest)
-      as (l2 & Hl2 & Hi2 & Hr2).
+    assert (Hraw2 : exists l2, lexes d l1 (pre ++ 60 :: name ++ tag_rest attrs ws false) content (60 :: 47 :: ename ++ ews ++ 62 :: rest)
+                                 [mkObs TextT content content []] l2 /\ intag l2 = false /\ rawtag l2 = 0).
+    { destruct Hns as [Hns|Hnolt].
+      - exact (lexes_rawtext d l1 _ content ename (ews ++ 62 :: rest) h Hat2 Hi1 Hr1 Hrh Hxh Hnp Hns Hcne Hnls Helet Heh Herest).
+      - assert (Hh0 : h <> 0) by (intros ->; vm_compute in Hrh; discriminate).
+        destruct (next_rawtext_nolt d l1 _ content ename (ews ++ 62 :: rest) h Hat2 Hi1 Hr1 Hh0 Hnp Hcne Hnolt Helet Heh Herest)
+          as (l2 & Hnx2 & Htx2 & Hb2 & Hi2 & Hr2 & _).
+        exists l2. split; [|tauto]. pose proof (len_nonneg content).
+        eapply lexes_one; [exact Hat2|exact Hnx2|cbn [so sn]; lia|].
+        cbn [observe]. rewrite Htx2, Hb2. cbn [opt_bytes]. change (TextT =? AttributeT) with false.
+        rewrite (at_input_view0 d l1 _ _ (len content) Hat2) by (rewrite ?len_app; pose proof (len_nonneg (60 :: 47 :: ename ++ ews ++ 62 :: rest)); lia). rewrite slice_first. reflexivity. }
+    destruct Hraw2 as (l2 & Hl2 & Hi2 & Hr2).
     assert (Hat3 : at_input d l2 ((pre ++ 60 :: name ++ tag_rest attrs ws false) ++ content) (60 :: 47 :: ename ++ ews ++ 62 :: rest)).
     { destruct Hl2 as (tr & _ & _ & _ & A). exact A. }
     assert (Hen1 : exists c nm, ename = c :: nm /\ is_letter c = true).
@@ -884,7 +895,7 @@ Proof.
   all: try (repeat constructor; vm_compute; repeat split; reflexivity || discriminate || (intros; discriminate)).
   all: try (eexists; split; vm_compute; reflexivity).
   - right. exists 39, [99]. split; [reflexivity|]. split; [tauto|repeat constructor; discriminate].
-  - exists html_hash_Style. repeat split; try (vm_compute; reflexivity); vm_compute; discriminate.
+  - exists html_hash_Style. repeat split; try (vm_compute; reflexivity); try (vm_compute; discriminate). left. vm_compute. discriminate.
   - intros k Hk Hk1. destruct (Z.eq_dec k 1) as [->|Hne]; [vm_compute in Hk1; discriminate|].
     assert (0 <= k < 3) by (apply peekz_some in Hk; exact Hk).
     assert (k = 0 \/ k = 2) as [-> | -> ] by lia; vm_compute in Hk; discriminate.
